@@ -1653,6 +1653,10 @@ func dotGetSetHelper(env *Zlisp, name string, setVal *Sexp) (Sexp, error) {
 				}
 				// ex:  We got back fld='20' of type int, kind=int
 				//P("We got back fld='%v' of type %v, kind=%v", fld, fld.Type(), fld.Type().Kind())
+				if !fld.CanInterface() {
+					// an unexported field of the Go struct: Interface() panics on those
+					return SexpNull, fmt.Errorf("field '%s' is not exported", fieldName)
+				}
 				return GoToSexp(fld.Interface(), env)
 			}
 		}
